@@ -1,8 +1,9 @@
 SPECIFICATION Spec
 CONSTANTS
  StrictCmdline = TRUE
+ FirstRunReadsCmdline = FALSE
  MaxChunks = 2
- Family = "asbuilt"
+ Family = "legacy"
  Scripts <- MCScripts
 INVARIANT NoBrick
 CHECK_DEADLOCK FALSE
